@@ -1,0 +1,55 @@
+//go:build verif
+
+package encoder
+
+import (
+	"unsafe"
+
+	"github.com/goccy/go-json/internal/runtime"
+)
+
+// Verification hooks (build tag "verif").  They record every access to the interpreter's scratch
+// slots (ctx.Ptrs) relative to the slice's base: which frame (base slot) and which slot of it.
+// Nothing is recorded unless a tracer is installed; tracing is for single-goroutine use only.
+
+// VerifSlotEvent is one recorded slot access (Kind 'l' load, 's' store, 'n' loadNPtr) or the start
+// of an encoding ('b': RuntimeContext.Init).
+type VerifSlotEvent struct {
+	Kind byte
+	Base int64 // frame base, in slots from the start of ctx.Ptrs (negative / huge = outside)
+	Idx  int64 // slot index inside the frame
+	PLen int64 // len(ctx.Ptrs) when the access happened
+}
+
+// VerifSlotTracer receives the events; nil = tracing off.
+var VerifSlotTracer func(VerifSlotEvent)
+
+var (
+	verifPtrsBase uintptr
+	verifPtrsLen  int
+)
+
+func VerifSlot(kind uint8, base uintptr, idx uint32) {
+	if VerifSlotTracer == nil {
+		return
+	}
+	const w = unsafe.Sizeof(uintptr(0))
+	VerifSlotTracer(VerifSlotEvent{Kind: kind, Base: (int64(base) - int64(verifPtrsBase)) / int64(w), Idx: int64(idx) / int64(w), PLen: int64(verifPtrsLen)})
+}
+
+func verifPtrs(c *RuntimeContext) {
+	if VerifSlotTracer == nil {
+		return
+	}
+	header := (*runtime.SliceHeader)(unsafe.Pointer(&c.Ptrs))
+	verifPtrsBase = uintptr(header.Data)
+	verifPtrsLen = len(c.Ptrs)
+}
+
+func verifInit(c *RuntimeContext) {
+	if VerifSlotTracer == nil {
+		return
+	}
+	verifPtrs(c)
+	VerifSlotTracer(VerifSlotEvent{Kind: 'b', PLen: int64(len(c.Ptrs))})
+}
